@@ -471,12 +471,13 @@ class WorkflowConductor(object):
         if self.get_workflow_status() not in statuses.COMPLETED_STATUSES:
             raise exc.WorkflowContextError("Workflow is not in completed status.")
 
-        wf_term_ctx = {}
-
         term_tasks = self.workflow_state.get_terminal_tasks()
 
+        # If the workflow is completed by a request and not by a task, for example a workflow
+        # that is canceled while no task is running, then there is no terminal task. The
+        # workflow has at least the initial context to render the output from.
         if not term_tasks:
-            return wf_term_ctx
+            return self.get_workflow_initial_context() if self.workflow_state.contexts else {}
 
         _, first_term_task = term_tasks[0:1][0]
         other_term_tasks = term_tasks[1:]
